@@ -117,7 +117,16 @@ def run(ctx, rep):
                           'key %s should be optional: required=%s type=%s' % (key, k.required, k.ty))
             elif spec.startswith('d:'):
                 name = spec[2:]
-                ok = k.required is False and k.default in T['defaults'][name] and default_value_ok(prog, sl, name, k.default)
+                dflt = k.default
+                if dflt and dflt.startswith('container:'):
+                    # resolve the container default's field to the function that produces it
+                    cf = prog.fns.get(k.container_default[0])
+                    cv = strip(sl.local(cf, 0)) if cf else ('unknown',)
+                    fv = strip(dict(cv[3]).get(k.container_default[1], ('unknown',))) if cv[0] == 'agg' else ('unknown',)
+                    dflt = fv[1] if fv[0] == 'call' else ('<literal>' if fv[0] == 'agg' else None)
+                    if name == 'empty' and fv[0] == 'call' and fv[1] in ('std::vec::Vec::<T>::new',):
+                        dflt = 'std::default::Default::default'
+                ok = k.required is False and dflt in T['defaults'][name] and default_value_ok(prog, sl, name, dflt)
                 rep.check(ok, 'R2', subj, where, 'optional, default %s' % name,
                           'key %s must be optional with default %s: required=%s default=%s' % (key, name, k.required, k.default))
             elif spec == 'g':
